@@ -425,10 +425,31 @@ class StmtMixin:
             base = self.eval(target.value, st)
             if not isinstance(base.ty, TObj):
                 raise Unsupported("attribute assignment on %s" % base.ty, target)
-            setter = "%s.%s.%s.setter" % (S.CLASSES[base.ty.cls]["module"], base.ty.cls, target.attr)
+            info = S.CLASSES[base.ty.cls]
+            setter = "%s.%s.%s.setter" % (info["module"], info.get("source_class", base.ty.cls), target.attr)
             if target.attr not in base.t:
                 if setter in S.REGISTRY:
-                    raise Unsupported("property setter %s" % setter, target)
+                    # property setter: apply its contract (pure on the record: frame = modifies)
+                    con = S.REGISTRY[setter]
+                    self.used_contracts.add(setter)
+                    pname = list(con.params)[1]
+                    bound = {list(con.params)[0]: base, pname: self.coerce(val, con.params[pname], target, "value assigned to .%s" % target.attr)}
+                    pre = S.Ctx(bound)
+                    for label, f in con.requires(pre):
+                        self.hazard("Requires", f, target, "%s requires[%s]" % (setter, label))
+                    for kind, fn in con.raises.items():
+                        spec = fn(pre)
+                        if spec is not None:
+                            self.hazard(kind, z3.Not(spec["when"]), target, "%s raises %s" % (setter, kind))
+                    rec = dict(base.t)
+                    for a in con.modifies:
+                        rec[a] = fresh(rec[a].ty, "%s_set" % a, self.classes_fields())
+                    newobj = Val(base.ty, rec)
+                    post = S.Ctx(dict(bound, **{list(con.params)[0]: newobj}), old=pre, result=NONE)
+                    for label, f in con.ensures(post):
+                        self.fact(st, f)
+                    self.assign_to(target.value, newobj, st, check_owned=False)
+                    return
                 raise Unsupported("assignment to unknown attribute %s.%s" % (base.ty.cls, target.attr), target)
             rec = dict(base.t)
             rec[target.attr] = self.coerce(val, rec[target.attr].ty, target, "attribute %s" % target.attr) if not isinstance(val.ty, TObj) else val
@@ -698,11 +719,11 @@ class StmtMixin:
                 return Val(ty, t_mk(ty, key, val))
 
             return n, ks, ed, {"idx": idx, "dict": v}
-        if isinstance(v.ty, TList):
-            return l_len(v.t), v, (lambda j: Val(v.ty.elem, l_at(v.t, j))), {}
         h = self.iter_handlers.get(v.ty.key)
         if h:
             return h(self, v, s, st)
+        if isinstance(v.ty, TList):
+            return l_len(v.t), v, (lambda j: Val(v.ty.elem, l_at(v.t, j))), {}
         raise Unsupported("iteration over %s" % v.ty, s)
 
     def check_inv(self, st, k, spec, when, hyps_state=None):
